@@ -189,7 +189,7 @@ def frame(ctx, cname):
             if e.kind == "exit" and e.callee == "Injector._postprocess":
                 break
         okr = rets[0].seq > post[0].seq
-    ctx.ob("MC", site, "the (modified) copy is returned through _postprocess on the only return path", okr, "")
+    ctx.ob("MC", site, "the (modified) copy is returned through _postprocess on the only return path", okr, "", firm=True)
     def _via_view(e):
         """a store through a basic row slice of the copy (rows = ret[a:b]; rows[:, c] = v): the slice is a view, the store lands in ret[a:b, c]"""
         o = q.unmut(e.old).single_atom() if isinstance(e.d.get("old"), T.R) else None
